@@ -151,6 +151,7 @@ func c06Regressions(o opts, g *gen.G, syms *val.Syms, w *emit.Writer) error {
 		{Name: "X", IsRoot: true, Indexes: [][]string{{"a", "b"}, {"b", "a"}}, Cols: []val.Col{{Name: "a", K: 'a', KT: 's'}, {Name: "b", K: 'a', KT: 's'}}},
 		{Name: "T", IsRoot: true, Indexes: [][]string{{"name"}}, Cols: []val.Col{{Name: "name", K: 'a', KT: 's'}}},
 		{Name: "O", IsRoot: true, Cols: []val.Col{{Name: "name", K: 'a', KT: 's'}}},
+		{Name: "Y", IsRoot: true, Indexes: [][]string{{"p"}, {"q"}}, Cols: []val.Col{{Name: "p", K: 'a', KT: 's'}, {Name: "q", K: 'a', KT: 's'}}},
 	}}
 	lab, err := newTxnLab(sch)
 	if err != nil {
@@ -225,6 +226,37 @@ func c06Regressions(o opts, g *gen.G, syms *val.Syms, w *emit.Writer) error {
 			}
 		}
 		regReport(w, "duplicate hidden by a delete in another table", failure)
+	}
+	// a conflict with a row that leaves on one index must not hide the conflict with a row that stays on another
+	for vi, variant := range []string{"delete", "update"} {
+		a, b := gen.UUIDn(50+2*vi), gen.UUIDn(51+2*vi)
+		pa, qa, pb, qb := fmt.Sprintf("p%da", vi), fmt.Sprintf("q%da", vi), fmt.Sprintf("p%db", vi), fmt.Sprintf("q%db", vi)
+		_, c1, _ := r.raw(lab.name, ovsdb.Operation{Op: "insert", Table: "Y", UUID: a, Row: ovsdb.Row{"p": pa, "q": qa}},
+			ovsdb.Operation{Op: "insert", Table: "Y", UUID: b, Row: ovsdb.Row{"p": pb, "q": qb}})
+		failure := ""
+		if !c1 {
+			failure = "set-up of table Y failed"
+		}
+		byA := []ovsdb.Condition{ovsdb.NewCondition("_uuid", ovsdb.ConditionEqual, ovsdb.UUID{GoUUID: a})}
+		leave := ovsdb.Operation{Op: "delete", Table: "Y", Where: byA}
+		if variant == "update" {
+			leave = ovsdb.Operation{Op: "update", Table: "Y", Where: byA, Row: ovsdb.Row{"p": pa + "-moved", "q": qa + "-moved"}}
+		}
+		for _, nr := range []ovsdb.Row{{"p": pa, "q": qb}, {"p": pb, "q": qa}} {
+			if failure != "" {
+				break
+			}
+			_, c2, p2 := r.raw(lab.name, leave, ovsdb.Operation{Op: "insert", Table: "Y", Row: nr})
+			np := count("Y", func(row ovsdb.Row) bool { return row["p"] == nr["p"] })
+			nq := count("Y", func(row ovsdb.Row) bool { return row["q"] == nr["q"] })
+			switch {
+			case p2 != "":
+				failure = "panic: " + p2
+			case c2 || np > 1 || nq > 1:
+				failure = fmt.Sprintf("indexes [p] [q], rows A(%s,%s) B(%s,%s): %s A; insert (%v,%v) is committed=%v - %d rows with that p, %d with that q", pa, qa, pb, qb, variant, nr["p"], nr["q"], c2, np, nq)
+			}
+		}
+		regReport(w, "conflict with a departing row hides one with a row that stays ("+variant+")", failure)
 	}
 	return nil
 }
